@@ -35,6 +35,9 @@
 #include <dirent.h>
 #include <sys/wait.h>
 #include <poll.h>
+#include <sys/socket.h>
+#include <netinet/in.h>
+#include <arpa/inet.h>
 
 extern int epoll_wait(int, struct epoll_event *, int, int);
 extern ssize_t read(int, void *, size_t);
@@ -298,9 +301,26 @@ static Janet c_dump(int32_t argc, Janet *argv) {
     fprintf(lg, "\n");
     return janet_wrap_nil();
 }
+/* (verif/stall-listener) -> port of a TCP listener on 127.0.0.1 (ephemeral port, backlog 0) whose accept queue has been filled:
+ * the kernel drops further SYNs, so a non-blocking connect to it stays in progress (EINPROGRESS) for as long as the scenario
+ * runs.  The descriptors live until the scenario's process exits. */
+static Janet c_stall_listener(int32_t argc, Janet *argv) {
+    (void) argv; janet_fixarity(argc, 0);
+    int lfd = socket(AF_INET, SOCK_STREAM | SOCK_CLOEXEC, 0);
+    struct sockaddr_in sa; memset(&sa, 0, sizeof sa);
+    sa.sin_family = AF_INET; sa.sin_addr.s_addr = htonl(INADDR_LOOPBACK); sa.sin_port = 0;
+    if (lfd < 0 || bind(lfd, (struct sockaddr *) &sa, sizeof sa) || listen(lfd, 0)) janet_panic("stall-listener: cannot listen");
+    socklen_t sl = sizeof sa;
+    getsockname(lfd, (struct sockaddr *) &sa, &sl);
+    for (int i = 0; i < 3; i++) {
+        int c = socket(AF_INET, SOCK_STREAM | SOCK_NONBLOCK | SOCK_CLOEXEC, 0);
+        if (c >= 0) connect(c, (struct sockaddr *) &sa, sizeof sa);
+    }
+    return janet_wrap_integer(ntohs(sa.sin_port));
+}
 static const JanetReg cfuns[] = {
     {"verif/name", c_name, NULL}, {"verif/log", c_log, NULL}, {"verif/now", c_now, NULL},
-    {"verif/settle", c_settle, NULL}, {"verif/dump", c_dump, NULL}, {NULL, NULL, NULL}
+    {"verif/settle", c_settle, NULL}, {"verif/dump", c_dump, NULL}, {"verif/stall-listener", c_stall_listener, NULL}, {NULL, NULL, NULL}
 };
 
 /* ---- one scenario ------------------------------------------------------------------------------- */
